@@ -631,7 +631,9 @@ package swap
 //@ assigns nothing
 
 //@ func (*SwapService).lockRequestedSwap
-//@ property C09 C10 C11
+//@ property C09 C10 C11 C23
+// C23: both request handlers send the text of this refusal to the requesting peer
+//@ ensures @C23 refusal-text-is-public: untainted(result)
 //@ forall k0 string
 //@ requires s != nil && fsm != nil && s.activeSwaps != nil && s.swapServices != nil
 //@ requires @C09,C10 keyed-by-own-id: swapId == fsm.SwapId.String()
